@@ -28,7 +28,8 @@ Mismatch(ev) ==
   {k \in {"messages", "value", "log_range", "slots", "sub_automations", "learn_rank", "queue_length", "ServedInOrder", "InRange", "QueueSane"} :
    ~ CASE k = "messages" -> Len(ev.out) = Len(out) /\ \A i \in 1..Len(out) : ev.out[i].p = out[i].p /\ ev.out[i].ty = out[i].ty
        [] k = "value" -> Len(ev.out) = Len(out) => \A i \in 1..Len(out) : PInfo(out[i].p).log \/ ev.out[i].v = out[i].v
-       [] k = "log_range" -> \A i \in 1..Len(ev.out) : (ev.out[i].p = "/l") => LogOk(ev.out[i].vlog)
+       [] k = "log_range" -> \A i \in 1..Len(ev.out) : /\ ((ev.out[i].p = "/l") => LogOk(ev.out[i].vlog))
+                                                         /\ ((ev.out[i].p = "/m") => (ev.out[i].v >= SC /\ ev.out[i].v <= 1000 * SC))      \* inside its declared [1, 1000]
        [] k = "slots" -> \A s \in Slots : ev.slots[s].used = slot[s].used /\ ev.slots[s].cc = slot[s].cc /\ ev.slots[s].nrpn = slot[s].nrpn
        [] k = "sub_automations" -> \A s \in Slots, j \in Subs : ev.subs[s][j].used = sub[s][j].used /\ ev.subs[s][j].gain = sub[s][j].gain /\ ev.subs[s][j].offset = sub[s][j].offset
                                                                 /\ (sub[s][j].used => ev.subs[s][j].p = sub[s][j].p)
